@@ -12,7 +12,7 @@ use metrique_writer::stream::tee;
 use metrique_writer::{AnyEntrySink, EntryIoStream, EntryIoStreamExt, EntrySink};
 use std::io::{self, IoSlice};
 use std::panic::{AssertUnwindSafe, catch_unwind};
-use std::sync::atomic::Ordering;
+use std::sync::atomic::{AtomicU64, Ordering};
 use std::sync::{Arc, Mutex};
 use std::time::{Duration, Instant};
 use vcommon::recording::{POp, PVal, ProgramEntry};
@@ -406,6 +406,102 @@ fn flushed_after_append(streams: &[&Arc<StreamShared>], unflushed: &mut Option<S
     }
 }
 
+/// Several queues whose streams fail at the same time, for longer than the one-second window in
+/// which error reports are rate limited process-wide: every queue keeps handing its entries to its
+/// stream and shuts down. (An outage hits all sinks of a process together; the writers run flat
+/// out, so they reach the shared rate limiter at the same instants.)
+fn simultaneous_outage(rep: &Report) {
+    struct Failing {
+        handed: Arc<AtomicU64>,
+        dropped: Arc<std::sync::atomic::AtomicBool>,
+    }
+    impl EntryIoStream for Failing {
+        fn next(&mut self, _entry: &impl metrique_writer::Entry) -> Result<(), metrique_writer::IoStreamError> {
+            let n = self.handed.fetch_add(1, Ordering::Relaxed);
+            vcommon::sync::progress_tick();
+            if n % 2 == 0 {
+                Err(metrique_writer::IoStreamError::Io(io::Error::other("outage")))
+            } else {
+                Err(metrique_writer::IoStreamError::Validation(metrique_writer::ValidationError::invalid("outage")))
+            }
+        }
+        fn flush(&mut self) -> io::Result<()> {
+            Err(io::Error::other("outage"))
+        }
+    }
+    impl Drop for Failing {
+        fn drop(&mut self) {
+            self.dropped.store(true, Ordering::SeqCst);
+        }
+    }
+    if is_miri() {
+        return;
+    }
+    rep.eval();
+    let n_queues = 8usize;
+    let handed: Vec<Arc<AtomicU64>> = (0..n_queues).map(|_| Default::default()).collect();
+    let dropped: Vec<Arc<std::sync::atomic::AtomicBool>> = (0..n_queues).map(|_| Default::default()).collect();
+    let gate = Arc::new(vcommon::sync::SpinGate::new(n_queues));
+    let appenders: Vec<_> = (0..n_queues)
+        .map(|i| {
+            let (gate, handed, dropped) = (gate.clone(), handed[i].clone(), dropped[i].clone());
+            std::thread::spawn(move || {
+                let (q, h) = BackgroundQueueBuilder::new().capacity(1 << 16).flush_interval(Duration::from_millis(50)).build::<IdEntry>(Failing { handed: handed.clone(), dropped });
+                gate.wait();
+                let start = Instant::now();
+                let mut s = 0u64;
+                while start.elapsed() < Duration::from_millis(2300) {
+                    // stay ahead of the writer without overflowing the ring
+                    if s < handed.load(Ordering::Relaxed) + 60_000 {
+                        q.append(IdEntry::new(0, s as u32));
+                        s += 1;
+                    } else {
+                        std::hint::spin_loop();
+                    }
+                }
+                (q, h, s)
+            })
+        })
+        .collect();
+    let mut queues = vec![];
+    for t in appenders {
+        queues.push(t.join().expect("appender"));
+    }
+    let appended: Vec<u64> = queues.iter().map(|q| q.2).collect();
+    let done = Arc::new(std::sync::atomic::AtomicBool::new(false));
+    let d2 = done.clone();
+    let closer = std::thread::spawn(move || {
+        for (q, h, _) in queues {
+            drop(q);
+            h.shut_down();
+        }
+        d2.store(true, Ordering::SeqCst);
+    });
+    let finished = vcommon::sync::progress_wait(|| done.load(Ordering::SeqCst), vcommon::sync::default_stall());
+    let handed_now: Vec<u64> = handed.iter().map(|h| h.load(Ordering::SeqCst)).collect();
+    if !finished {
+        rep.violation(
+            "sink-stalled-during-simultaneous-outage",
+            json!({"what": "8 queues whose streams all fail (I/O and validation errors alternating) for 2.3 s with writers running flat out: shutting them down made no progress for the stall period - a writer thread is stuck",
+                   "appended_per_queue": appended, "handed_to_each_stream_so_far": handed_now, "streams_dropped": dropped.iter().map(|d| d.load(Ordering::SeqCst)).collect::<Vec<_>>()}),
+        );
+        return;
+    }
+    let _ = closer.join();
+    // the stream may also have been handed the queue's own (rate-limited) report entries
+    for i in 0..n_queues {
+        if handed_now[i] < appended[i] || handed_now[i] > appended[i] + 8 || !dropped[i].load(Ordering::SeqCst) {
+            rep.violation(
+                "sink-entry-lost-duplicated-or-reordered",
+                json!({"what": "simultaneous outage: a queue did not hand every appended entry to its stream exactly once (count) or did not close it", "queue": i, "appended": appended[i], "handed": handed_now[i], "closed": dropped[i].load(Ordering::SeqCst)}),
+            );
+            return;
+        }
+    }
+    rep.count("simultaneous_outage_entries", appended.iter().sum());
+    rep.distinct(Fnv::new().str("simultaneous-outage").finish());
+}
+
 fn sinks_part(args: &Args, rep: &Report, rounds: u64) {
     let mut rng = Rng::derive(args.seed, 0xabc);
     for round in 0..rounds {
@@ -507,6 +603,9 @@ fn sinks_part(args: &Args, rep: &Report, rounds: u64) {
                 }
             }
         }
+    }
+    if rep.violation_count() == 0 {
+        simultaneous_outage(rep);
     }
     // the formatter-backed stream: a failing writer for one entry, later entries still complete
     for round in 0..rounds / 4 + 1 {
